@@ -134,9 +134,10 @@ def oracle(c):
         gi = pr["group"]
         lo, hi = starts[gi], starts[gi] + c["groups"][gi]["pdi_len"]
         key = "probe"
-        # a group that failed with PdiTooLong leaves FMMUs behind that reach into later groups
+        # a group whose configuration failed (PdiTooLong at the end, or a missing FMMU half way: the
+        # capacity is only checked at the end) leaves FMMUs behind that can reach into later groups
         for gj, g in enumerate(c["groups"]):
-            if gj != gi and g["res"].startswith("PdiTooLong"):
+            if gj != gi and (g["res"].startswith("PdiTooLong") or g["res"].startswith("NotFound { item: Fmmu")):
                 for p in gs[gj]:
                     for f in c["devs"][p]["fmmu_regs"]:
                         if f[8] and f[1] > 0 and f[0] < hi and lo < f[0] + f[1]:
@@ -243,10 +244,10 @@ def run(ctx, replay=None):
             items.append(("obs_group %s %d %d [%s]" % ("Release" if c["release"] else "Debug", starts.get(gi, 0), c["max_pdi"][gi], "; ".join(coq_dev(d) for d in devs)), e))
             meta.append((ci, gi))
     # one probing cycle per group against the model's ring of devices (Net/Commute.v); groups next to
-    # a group that failed with PdiTooLong are left to the oracle (the leftover FMMUs are foreign devices)
+    # a group whose configuration failed are left to the oracle (the leftover FMMUs are foreign devices)
     ncyc = 0
     for ci, c in enumerate(cases):
-        if c["res"] != "Ok" or any(g["res"].startswith("PdiTooLong") for g in c["groups"]):
+        if c["res"] != "Ok" or any(g["res"].startswith("PdiTooLong") or g["res"].startswith("NotFound") for g in c["groups"]):
             continue
         gs = groups_of(c)
         starts, order = starts_of(c)
